@@ -298,8 +298,7 @@ def run(ctx: Ctx, rep: Report) -> None:
     check_length_encoder(ctx, rep)
     from . import c06
 
-    sub = Report(rep.prop, rep.tier)
-    c06.run(ctx, sub)
+    sub = ctx.sub_run("c06", rep)
     rep.adopt_rules(sub, "C10-R8", ["C06-R3"])
 
 
